@@ -124,8 +124,10 @@ func (e *c20Env) open() error {
 				if !ok || it.K == "" {
 					return nil
 				}
-				// "<FF>" stands for the byte 0xFF, which a JSON string cannot carry
-				return []byte(strings.ReplaceAll(it.K, "<FF>", "\xff"))
+				// "<FF>" stands for the byte 0xFF, which a JSON string cannot carry; "<00>" for
+				// the byte the index uses as separator in front of the resource name (binary keys
+				// such as big-endian numbers contain it)
+				return []byte(strings.ReplaceAll(strings.ReplaceAll(it.K, "<FF>", "\xff"), "<00>", "\x00"))
 			}
 			// a second index with a one-letter name ("keep it rather short"), which happens to be
 			// the first letter of the resource names
@@ -297,7 +299,7 @@ func c20RandEvent0(r *rand.Rand, cfg c20Cfg) c20Ev {
 		switch r.Intn(8) {
 		case 0:
 			if cfg.Index {
-				return c20Ev{Kind: "create", Value: c20Item{K: []string{"a", "ab", "b", "", "a<FF>", "a<FF>b"}[r.Intn(6)], A: "new"}}
+				return c20Ev{Kind: "create", Value: c20Item{K: []string{"a", "ab", "b", "", "a<FF>", "a<FF>b", "n<00>n"}[r.Intn(7)], A: "new"}}
 			}
 			m := map[string]interface{}{"pad": strings.Repeat(fmt.Sprintf("%04d-", r.Intn(10000)), 1500)}
 			for _, k := range []string{"a", "b"} {
@@ -322,7 +324,7 @@ func c20RandEvent0(r *rand.Rand, cfg c20Cfg) c20Ev {
 				}
 			case 1, 2:
 				if k == "k" {
-					ch[k] = []string{"a", "ab", "b", "", "abc", "a<FF>", "a<FF><FF>"}[r.Intn(7)]
+					ch[k] = []string{"a", "ab", "b", "", "abc", "a<FF>", "a<FF><FF>", "n<00>n"}[r.Intn(8)]
 				} else if cfg.Index {
 					ch[k] = []interface{}{"s", "t", 1.0}[r.Intn(3)]
 				} else {
@@ -599,6 +601,11 @@ func c20Sequence(c *core.Ctx, cfg c20Cfg, dir string, r *rand.Rand, seq int) boo
 		var valErr error
 		err := e.rig.S.With(rid, func(rs res.Resource) {
 			defer close(done)
+			if step%2 == 1 {
+				// the handle has been used to read the value before the event: what it gives
+				// afterwards is still the fold including the event
+				rs.Value()
+			}
 			pn = try(func() {
 				switch ev.Kind {
 				case "change":
@@ -756,7 +763,7 @@ func c20CheckIndex(c *core.Ctx, e *c20Env, states map[string]interface{}, before
 		}
 		m, _ := jsonNorm(v).(map[string]interface{})
 		s, _ := m["k"].(string)
-		return strings.ReplaceAll(s, "<FF>", "\xff")
+		return strings.ReplaceAll(strings.ReplaceAll(s, "<FF>", "\xff"), "<00>", "\x00")
 	}
 	if rid != "" && !(ev.Kind == "delete" && before == nil) {
 		bk, ak := keyOf(before), keyOf(after)
@@ -800,7 +807,7 @@ func c20CheckIndex(c *core.Ctx, e *c20Env, states map[string]interface{}, before
 		limit  int
 		offset int
 	}{{"", false, -1, 0}, {"a", false, -1, 0}, {"ab", false, -1, 0}, {"", true, -1, 0}, {"a", true, 2, 0}, {"", false, 1, 1}, {"zz", false, -1, 0},
-		{"a", true, -1, 0}, {"a\xff", true, -1, 0}, {"a\xff", false, -1, 0}, {"ab", true, -1, 1}} {
+		{"a", true, -1, 0}, {"a\xff", true, -1, 0}, {"a\xff", false, -1, 0}, {"ab", true, -1, 1}, {"n", false, -1, 0}, {"n", true, -1, 0}} {
 		var want []string
 		for _, x := range es {
 			if strings.HasPrefix(x.key, q.prefix) {
